@@ -273,6 +273,7 @@ func (s *scripted) Read(p []byte) (int, error) {
 
 type encSpec struct {
 	nilcfg          bool
+	mtime           int64 // FileHints.ModTime as Unix seconds, 0 = zero time
 	mode            string // sym | pk | sign
 	rcpt            []string
 	signer          int // 0 none, else pk algo
@@ -289,6 +290,9 @@ func specOf(o hx.Op, msg []byte) encSpec {
 	s := encSpec{mode: o.Str("mode"), rcpt: o.List("rcpt"), signer: o.Int("signer"), cipher: o.Int("cipher"), comp: o.Int("comp"), hash: o.Int("hash"),
 		binary: o.Int("bin") == 1, name: string(o.Hex("name")), msg: msg, chunks: o.Ints("ch")}
 	s.nilcfg = o.Has("nilcfg") && o.Int("nilcfg") == 1
+	if o.Has("mt") {
+		s.mtime = int64(o.Int("mt"))
+	}
 	return s
 }
 
@@ -298,6 +302,9 @@ func produce(s encSpec) ([]byte, error) {
 	loadKeys()
 	cfg := &packet.Config{DefaultCipher: packet.CipherFunction(s.cipher), DefaultCompressionAlgo: packet.CompressionAlgo(s.comp), DefaultHash: hashByID[s.hash], Time: fixedTime(1700000000)}
 	hints := &openpgp.FileHints{IsBinary: s.binary, FileName: s.name}
+	if s.mtime != 0 {
+		hints.ModTime = time.Unix(s.mtime, 0)
+	}
 	if s.nilcfg { // every entry point accepts a nil *packet.Config (AES-128, SHA-256, no compression, time.Now)
 		cfg = nil
 	}
@@ -380,6 +387,26 @@ func readBackEnc(data []byte, wantSig, wantEnc bool) (string, []byte) {
 		}
 	}
 	return "ok", body
+}
+
+// literalMeta reads the message once more and returns name/binary/date of the literal packet ("" if unreadable)
+func literalMeta(data []byte) string {
+	calls := 0
+	prompt := func(keys []openpgp.Key, symmetric bool) ([]byte, error) {
+		calls++
+		if calls > 1 || !symmetric {
+			return nil, fmt.Errorf("no passphrase")
+		}
+		return passphrase, nil
+	}
+	md, err := openpgp.ReadMessage(bytes.NewReader(data), ring, prompt, nil)
+	if err != nil || md.LiteralData == nil {
+		return ""
+	}
+	if md.LiteralData.ForEyesOnly() != (md.LiteralData.FileName == "_CONSOLE") {
+		return "eyes-only-mismatch"
+	}
+	return fmt.Sprintf("%s/%t/%d", hx.Hex([]byte(md.LiteralData.FileName)), md.LiteralData.IsBinary, md.LiteralData.Time)
 }
 
 func safeRead(m []byte, wantSig, wantEnc bool) (res string, body []byte) {
@@ -684,6 +711,15 @@ func run(line string) string {
 			rt = res
 		} else if !bytes.Equal(body, msg) {
 			rt = "plaintext-differs"
+		} else if m := literalMeta(d); m != "" {
+			// the literal packet's metadata as ReadMessage reports it: file name (truncated to 255), binary flag, date
+			wantName := s.name
+			if len(wantName) > 255 {
+				wantName = wantName[:255]
+			}
+			if want := fmt.Sprintf("%s/%t/%d", hx.Hex([]byte(wantName)), s.binary, uint32(s.mtime)); m != want {
+				rt = "metadata-differs"
+			}
 		}
 		sig := "none"
 		if s.signer != 0 {
@@ -1286,8 +1322,10 @@ func emitEnc(g *hx.Gen, cmd string, extra string) {
 	pair(g, mode, sizeClass(n))
 	pair(g, sizeClass(n), chunkClass(ch))
 	pair(g, mode, "name-"+nameKind)
-	g.Emit("%s mode=%s rcpt=%s nrcpt=%d signer=%d signed=%d cipher=%d bs=%d comp=%d hash=%d bin=%d name=%s namelen=%d ch=%s n=%d seed=%d%s",
-		cmd, mode, hx.JoinStrs(rcpt), nr, signer, s, cipher, bs, comp, hashID, r.Intn(2), hx.Hex([]byte(name)), namelen, hx.JoinInts(ch), n, r.U64()>>1, extra)
+	mt := r.PickInt(0, 0, 1, 1500000000, 1<<31-1)
+	g.Stat(fmt.Sprintf("enc.modtime.zero=%t", mt == 0))
+	g.Emit("%s mode=%s rcpt=%s nrcpt=%d signer=%d signed=%d cipher=%d bs=%d comp=%d hash=%d bin=%d name=%s namelen=%d mt=%d ch=%s n=%d seed=%d%s",
+		cmd, mode, hx.JoinStrs(rcpt), nr, signer, s, cipher, bs, comp, hashID, r.Intn(2), hx.Hex([]byte(name)), namelen, mt, hx.JoinInts(ch), n, r.U64()>>1, extra)
 }
 
 // op families for the remaining exported entry points
